@@ -1,6 +1,8 @@
 """C06 — broadband convolution is the binned integral of F_nu * R_nu.
 
 Correspondence:
+  observable 0: the Filter object (in memory or Filter.read of a text file listed by increasing or decreasing
+                wavelength, asymmetric curves) holds exactly the (frequency, response) pairs that were written.
   observable 1: Filter.rebin(nu).response for filters built in memory (from frequencies or wavelengths,
                 normalised or not) or read through Filter.read from a generated two-column text file,
                 against driver op `rebin` (normalize + rebin of the model, exact rationals, on the float
@@ -31,7 +33,8 @@ RULE = ('cases = (filter curve, SED frequency grid[, small per-file SED package]
         'response; distinct = distinct canonical hash of the generated inputs')
 REQUIRED_BRANCHES = ['filter_increasing_nu', 'filter_decreasing_nu', 'sed_increasing', 'sed_decreasing',
                      'partial_overlap', 'full_overlap', 'edge_on_node', 'from_file', 'nonzero_edges',
-                     'package', 'package_same_ends_other_interior']
+                     'package', 'package_same_ends_other_interior', 'file_wav_increasing', 'file_wav_decreasing',
+                     'file_asymmetric']
 ASSUMPTIONS = ['IEEE rounding is not modelled: responses compared within 1e-9 of sum|R_i|, fluxes within 1e-9 of '
                'sum|F_i R_i|, variances within 4e-9 relative',
                'filter frequencies strictly monotonic, SED frequencies strictly monotonic, all values finite '
@@ -74,11 +77,18 @@ def gen_filter(rng, mode, n=None, zero_edges=None, order=None, normalize=None):
     while len(xs) < 2:
         xs.append(xs[-1] * 1.5)
     n = len(xs)
-    shape = rng.choice(['bell', 'random', 'box'])
+    # files get curves that are clearly not symmetric under reversal of the sample order
+    shape = rng.choice(['ramp', 'skew', 'ramp', 'random'] if mode == 'file' else ['bell', 'random', 'box', 'ramp', 'skew'])
+    up = rng.random() < 0.5
     rs = []
     for i in range(n):
         t = (i + 0.5) / n
-        if shape == 'bell':
+        if shape == 'ramp':
+            v = (0.1 + 0.9 * (t if up else 1 - t)) * rng.uniform(0.9, 1.)
+        elif shape == 'skew':
+            tt = t if up else 1 - t
+            v = (tt ** 3) * math.exp(-4 * tt) * 30 * rng.uniform(0.9, 1.) + 0.02
+        elif shape == 'bell':
             v = math.exp(-8 * (t - 0.5) ** 2) * rng.uniform(0.7, 1.)
         elif shape == 'box':
             v = rng.choice([1., 1., 0.9, 0.95])
@@ -96,6 +106,8 @@ def gen_filter(rng, mode, n=None, zero_edges=None, order=None, normalize=None):
         rs[rng.randrange(2)] = 0.
     if not any(r > 0 for r in rs):
         rs[len(rs) // 2] = 0.5
+    if mode == 'file' and n >= 4 and rs == rs[::-1]:
+        rs[1] = float('%.3g' % (rs[1] * 0.5 + 0.05))
     scale = rng.choice([1., 1., 1e-3, 37., 1e4])
     rs = [float('%.3g' % (r * scale)) for r in rs]
     order = order or rng.choice(['inc', 'dec'])
@@ -266,6 +278,10 @@ DIRECTED = [
     ('file', 'dec', True, True, 'cover_fine', 'dec', True),
     ('file', 'inc', False, True, 'inside', 'dec', False),
     ('wav', 'inc', False, False, 'partial_high', 'dec', True),
+    ('file', 'dec', False, False, 'cover_coarse', 'inc', False),
+    ('file', 'dec', False, True, 'partial_high', 'dec', True),
+    ('file', 'inc', True, False, 'cover_fine', 'inc', False),
+    ('file', 'dec', False, True, 'cover_fine', 'inc', False),
     ('nu', 'inc', False, True, 'cover_fine', 'inc', 'hetero'),
     ('wav', 'dec', True, True, 'cover_coarse', 'inc', 'hetero'),
     ('file', 'inc', False, False, 'cover_fine', 'dec', 'hetero'),
@@ -308,17 +324,25 @@ def gen_cases(seed, tier):
 
 # ----------------------------------------------------------------------------- real side
 
+def written_nu(flt):
+    """the frequencies of the samples as written / passed in, in that order (c / lambda by astropy, in float,
+    exactly the operation make_filter and Filter.read apply)"""
+    from astropy import units as u
+    if flt['mode'] == 'nu':
+        return [float(v) for v in flt['x']]
+    return [float(v) for v in (np.array(flt['x'], dtype=float) * u.micron).to(u.Hz, equivalencies=u.spectral()).value]
+
+
 def build_filter(flt, d):
-    """the Filter object under test, through the public constructors"""
+    """the Filter object under test, through the public constructors.  Returns (filter, why): `why` describes a
+    Filter that does not hold the samples that were written (frequency / response pairs in written order)"""
     from astropy import units as u
     from sedfitter.filter import Filter
     if flt['mode'] == 'nu':
         f = Filter(name='FLT', central_wavelength=flt['central'] * u.micron,
                    nu=np.array(flt['x'], dtype=float) * u.Hz, response=np.array(flt['r'], dtype=float))
-        if flt['normalize']:
-            f.normalize()
     elif flt['mode'] == 'wav':
-        f = pk.make_filter('FLT', flt['central'], flt['x'], flt['r'], normalize=flt['normalize'])
+        f = pk.make_filter('FLT', flt['central'], flt['x'], flt['r'], normalize=False)
     else:
         path = os.path.join(d, 'FLT.txt')
         with open(path, 'w') as fh:
@@ -326,9 +350,22 @@ def build_filter(flt, d):
             for x, r in zip(flt['x'], flt['r']):
                 fh.write('%r %r\n' % (x, r))
         f = Filter.read(path)
-        if flt['normalize']:
-            f.normalize()
-    return f
+    why = None
+    want_nu = written_nu(flt)
+    got_nu = held_nu(f)
+    got_r = [float(v) for v in np.asarray(f.response, dtype=float)]
+    if len(got_nu) != len(want_nu) or len(got_r) != len(want_nu):
+        why = 'Filter holds %d frequencies / %d responses for %d samples' % (len(got_nu), len(got_r), len(want_nu))
+    else:
+        for i, (a, b, ra, rb) in enumerate(zip(got_nu, want_nu, got_r, flt['r'])):
+            if not (abs(a - b) <= 1e-14 * abs(b)) or ra != rb:
+                why = ('sample %d of the filter (%s, written as %r %s with response %r): the Filter object pairs nu = %r Hz '
+                       'with response %r; c/lambda = %r Hz' % (i, flt['mode'], flt['x'][i],
+                                                             'Hz' if flt['mode'] == 'nu' else 'micron', flt['r'][i], a, ra, b))
+                break
+    if flt['normalize']:
+        f.normalize()
+    return f, why
 
 
 def held_nu(f):
@@ -416,6 +453,9 @@ def grid_branches(nus_held, grid, flt):
         b.add('edge_on_node')
     if flt['mode'] == 'file':
         b.add('from_file')
+        b.add('file_wav_increasing' if flt['x'][-1] > flt['x'][0] else 'file_wav_decreasing')
+        if flt['r'] != flt['r'][::-1]:
+            b.add('file_asymmetric')
     r_first, r_last = flt['r'][0], flt['r'][-1]
     if r_first != 0 and r_last != 0:
         b.add('nonzero_edges')
@@ -435,14 +475,16 @@ def run_case(case):
         drv = common.driver()
         try:
             with common.quiet():
-                f = build_filter(flt, d)
-                nus_held = held_nu(f)
+                f, why = build_filter(flt, d)
+                # the model works on the samples the harness wrote (frequencies by c/lambda in written order);
+                # the Filter object must hold exactly those pairs
+                nus_held = written_nu(flt)
                 resp = np.array(f.rebin(np.array(grid, dtype=float) * u.Hz).response, dtype=float)
         except Exception as e:
             return CaseResult(False, violates=True,
                               detail='building / rebinning an in-domain filter raised %s: %s' % (type(e).__name__, e))
-        if len(nus_held) != len(flt['x']):
-            return CaseResult(False, violates=True, detail='Filter holds %d frequencies for %d samples' % (len(nus_held), len(flt['x'])))
+        if why:
+            return CaseResult(False, violates=True, branches=sorted(grid_branches(nus_held, grid, flt)), detail=why)
         branches = grid_branches(nus_held, grid, flt)
         fl = filter_line(flt, nus_held)
         t = drv.ask('c06.rebin %s %s' % (fl, rats(grid)))
@@ -576,13 +618,13 @@ def search(seed, tier, disagreeing_cases):
             flt = case['filter']
             try:
                 with common.quiet():
-                    f = build_filter(flt, d)
-                    nus_held = held_nu(f)
+                    f, why0 = build_filter(flt, d)
+                    nus_held = written_nu(flt)
                     resp = np.array(f.rebin(np.array(case['grid'], dtype=float) * u.Hz).response, dtype=float)
             except Exception as e:
                 found.append((dict(case, package=None), 'in-domain rebin raised %s: %s' % (type(e).__name__, e)))
                 continue
-            why = property_on_rebin(flt, nus_held, case['grid'], resp)
+            why = why0 or property_on_rebin(flt, nus_held, case['grid'], resp)
             if why:
                 found.append((dict(case, package=None), why))
         finally:
